@@ -1,6 +1,7 @@
 import RedisEmu.GoArith
 import RedisEmu.Cmds
 import RedisEmu.Bits
+import RedisEmu.Dict
 import Mathlib.Tactic.IntervalCases
 import Mathlib.Tactic.SplitIfs
 /-
@@ -73,5 +74,25 @@ theorem go_saturateValue_unsigned (v : BitVec 64) (bits : Nat) (h1 : 1 ≤ bits)
   unfold Go.saturateValue
   simp only [BitVec.slt, Bool.false_eq_true, ↓reduceIte]
   interval_cases bits <;> (simp; split_ifs <;> simp_all)
+
+theorem shl_const (x : BitVec 64) (k : UInt64) (n : Nat) (h : (UInt64.toBitVec k % 64).toNat = n) :
+    x <<< (UInt64.toBitVec k % 64) = x <<< n := by
+  rw [BitVec.shiftLeft_eq', h]
+
+theorem shr_const (x : BitVec 64) (k : UInt64) (n : Nat) (h : (UInt64.toBitVec k % 64).toNat = n) :
+    x >>> (UInt64.toBitVec k % 64) = x >>> n := by
+  rw [BitVec.ushiftRight_eq', h]
+
+/-- the compress round of SipHash as `sipHash.go` has it is the model's `Sip.round`, word for word -/
+theorem go_sipRound (s : Sip) :
+    Go.sipRound s.v0.toBitVec s.v1.toBitVec s.v2.toBitVec s.v3.toBitVec =
+      (s.round.v0.toBitVec, s.round.v1.toBitVec, s.round.v2.toBitVec, s.round.v3.toBitVec) := by
+  unfold Go.sipRound Sip.round rotl
+  simp only [UInt64.toBitVec_or, UInt64.toBitVec_shiftLeft, UInt64.toBitVec_shiftRight, UInt64.toBitVec_add, UInt64.toBitVec_xor]
+  rw [shl_const _ 32 32 (by decide), shl_const _ 16 16 (by decide), shl_const _ 13 13 (by decide),
+      shl_const _ 17 17 (by decide), shl_const _ 21 21 (by decide)]
+  rw [shr_const _ (64 - 32) 32 (by decide), shr_const _ (64 - 16) 48 (by decide), shr_const _ (64 - 13) 51 (by decide),
+      shr_const _ (64 - 17) 47 (by decide), shr_const _ (64 - 21) 43 (by decide)]
+  rfl
 
 end RedisEmu
